@@ -20,6 +20,7 @@ from __future__ import annotations
 
 import ast
 import copy
+import re
 from typing import Dict, List, Optional, Set, Tuple
 
 
@@ -467,6 +468,115 @@ def inline_module_constants(tree: ast.Module, new_names: Set[str]) -> int:
     tree.body = [_All().visit(st) for st in keep]
     ast.fix_missing_locations(tree)
     return len(env)
+
+
+# ------------------------------------------------------------------ flag tests
+def fold_flag_tests(fn: ast.AST) -> int:
+    """`if c: X; v = K1  else: Y; v = K2` directly followed by `if <test of v>: S [else: T]`:
+    the second test is decided at the end of every branch of the first statement, so S / T move
+    there (tail duplication).  This turns the flag / Optional protocol of an inlined helper
+    (`ok = helper(); if not ok: return`) back into the early exits it replaced."""
+    done = 0
+
+    def leaf_blocks(st: ast.stmt, facts: List[Tuple[str, bool]]):
+        """(block, facts) for every block in which control leaves `st` at its end"""
+        if isinstance(st, ast.If):
+            t = ast.unparse(st.test)
+            for br, pol in ((st.body, True), (st.orelse, False)):
+                f2 = facts + [(t, pol)]
+                if not br:
+                    yield None, f2  # empty else: falls through without assignment
+                elif isinstance(br[-1], ast.If):
+                    yield from leaf_blocks(br[-1], f2)
+                else:
+                    yield br, f2
+
+    def decide(test: ast.AST, v: str, last: Optional[ast.stmt],
+               facts: List[Tuple[str, bool]]) -> Optional[bool]:
+        if last is None or not (isinstance(last, ast.Assign) and len(last.targets) == 1 and
+                                isinstance(last.targets[0], ast.Name) and
+                                last.targets[0].id == v):
+            return None
+        val = last.value
+        neg = False
+        t = test
+        while isinstance(t, ast.UnaryOp) and isinstance(t.op, ast.Not):
+            t, neg = t.operand, not neg
+        res: Optional[bool] = None
+        if isinstance(val, ast.Constant):
+            if isinstance(t, ast.Name) and t.id == v:
+                res = bool(val.value)
+            elif isinstance(t, ast.Compare) and len(t.ops) == 1 and isinstance(
+                    t.left, ast.Name) and t.left.id == v and isinstance(
+                        t.comparators[0], ast.Constant) and t.comparators[0].value is None:
+                if isinstance(t.ops[0], ast.Is):
+                    res = val.value is None
+                elif isinstance(t.ops[0], ast.IsNot):
+                    res = val.value is not None
+        elif isinstance(val, ast.Name):
+            txt = ast.unparse(_SubstNames({v: val}).visit(copy.deepcopy(t)))
+            for ft, pol in facts:
+                if ft == txt:
+                    res = pol
+                elif ft == f"not {txt}" or ft == f"not ({txt})":
+                    res = not pol
+        if res is None:
+            return None
+        return (not res) if neg else res
+
+    for block in list(_blocks(fn)):
+        i = 0
+        while i + 1 < len(block):
+            a, b = block[i], block[i + 1]
+            if not (isinstance(a, ast.If) and isinstance(b, ast.If)):
+                i += 1
+                continue
+            names = {x.id for x in ast.walk(b.test) if isinstance(x, ast.Name)}
+            if len(names) != 1:
+                i += 1
+                continue
+            v = next(iter(names))
+            leaves = list(leaf_blocks(a, []))
+            if not leaves or any(lb is None for lb, _f in leaves):
+                i += 1
+                continue
+            decisions = [decide(b.test, v, lb[-1] if lb else None, f_) for lb, f_ in leaves]
+            if not any(d is not None for d in decisions) or not any(
+                    isinstance(lb[-1], ast.Assign) and isinstance(lb[-1].value, ast.Constant)
+                    for lb, _f in leaves if lb):
+                i += 1
+                continue
+            # leaves that end in return / raise / continue / break never reach b
+            for (lb, _f), d in zip(leaves, decisions):
+                if isinstance(lb[-1], (ast.Return, ast.Raise, ast.Continue, ast.Break)):
+                    continue
+                if d is None:
+                    lb.append(copy.deepcopy(b))
+                else:
+                    lb.extend(copy.deepcopy(b.body if d else b.orelse))
+            del block[i + 1]
+            done += 1
+        # (no increment: the merged statement may be followed by another flag test)
+            i += 1
+    if done:
+        # flags that are no longer read
+        loads = {x.id for x in _walk_scope(fn) if isinstance(x, ast.Name) and
+                 isinstance(x.ctx, ast.Load)}
+
+        class _Drop(ast.NodeTransformer):
+            def visit_Assign(self, node: ast.Assign):
+                if len(node.targets) == 1 and isinstance(node.targets[0], ast.Name) and \
+                        node.targets[0].id not in loads and isinstance(
+                            node.value, (ast.Constant, ast.Name)) and re.fullmatch(
+                                r"_t\d+", node.targets[0].id):
+                    return ast.Pass()
+                return node
+
+            def visit_FunctionDef(self, node):
+                return node
+        fn.body = [_Drop().visit(s_) for s_ in fn.body]  # type: ignore[attr-defined]
+        ast.fix_missing_locations(fn)
+    return done
 
 
 # ------------------------------------------------------------------ table-driven dispatch
@@ -1123,6 +1233,24 @@ def _hoist_test_calls(fn: ast.AST, helpers, cls, counter: List[int]) -> int:
             st = block[i]
             if isinstance(st, ast.If):
                 t = st.test
+                # `if A and [not] helper(..): S` (no else) == `if A: if [not] helper(..): S`
+                if isinstance(t, ast.BoolOp) and isinstance(t.op, ast.And) and not st.orelse \
+                        and len(t.values) >= 2:
+                    last = t.values[-1]
+                    lc = last.operand if isinstance(last, ast.UnaryOp) and isinstance(
+                        last.op, ast.Not) else last
+                    if isinstance(lc, ast.Call):
+                        h0, _r0 = _helper_of_call(lc, helpers, cls)
+                        if h0 is not None and h0.proc and h0.expr is None:
+                            inner_if = ast.copy_location(ast.If(test=last, body=st.body,
+                                                                orelse=[]), st)
+                            st.test = t.values[0] if len(t.values) == 2 else ast.copy_location(
+                                ast.BoolOp(op=ast.And(), values=t.values[:-1]), t)
+                            st.body = [inner_if]
+                            n += 1
+                            # the new inner `if` is a block of its own: handled next round
+                            i += 1
+                            continue
                 neg = isinstance(t, ast.UnaryOp) and isinstance(t.op, ast.Not)
                 c = t.operand if neg else t
                 if isinstance(c, ast.Call):
@@ -1482,9 +1610,6 @@ def _inline_proc_calls(fn: ast.AST, helpers, cls, counter: List[int]) -> int:
             counter[0] += 1
             suffix = f"_h{counter[0]}"
             if h.structured is not None:
-                if how == "arg0":
-                    i += 1
-                    continue
                 body = copy.deepcopy(h.structured)
             else:
                 body = copy.deepcopy(_strip_doc(h.node.body))  # type: ignore[attr-defined]
@@ -1596,6 +1721,19 @@ def _inline_proc_calls(fn: ast.AST, helpers, cls, counter: List[int]) -> int:
                 elif how == "return":
                     def make(v):
                         return [ast.Return(value=v)]
+                elif how == "arg0":
+                    def make(v, call=call):
+                        c2 = copy.deepcopy(call)
+                        c2.args[0] = v if v is not None else ast.Constant(value=None)
+                        # x.extend([a]) is x.append(a); x.extend([]) is nothing
+                        if isinstance(c2.func, ast.Attribute) and c2.func.attr == "extend" and \
+                                isinstance(c2.args[0], ast.List) and not any(
+                                    isinstance(e_, ast.Starred) for e_ in c2.args[0].elts):
+                            return [ast.Expr(value=ast.Call(
+                                func=ast.Attribute(value=c2.func.value, attr="append",
+                                                   ctx=ast.Load()), args=[e_], keywords=[]))
+                                    for e_ in c2.args[0].elts]
+                        return [ast.Expr(value=c2)]
                 else:
                     def make(v):
                         return [ast.Expr(value=v)] if v is not None and not isinstance(
@@ -1765,7 +1903,12 @@ def inline_helpers(tree: ast.Module, modname: str, ref_functions: Set[str]) -> i
                     hs[("", st.name)] = _Helper(st, "nested", None)
         if not hs:
             return
-        for _round in range(3):
+        for _round in range(4):
+            # closures that came in with an inlined helper
+            for st in list(fn.body):  # type: ignore[attr-defined]
+                if isinstance(st, ast.FunctionDef) and ("", st.name) not in hs and not any(
+                        f2 is st for f2 in _fkeys.values()):
+                    hs[("", st.name)] = _Helper(st, "nested", None)
             k = _inline_proc_calls(fn, hs, cls, counter)
             tr = _InlineExprCalls(hs, cls)
             fn.body = [tr.visit(s_) if not isinstance(  # type: ignore[attr-defined]
@@ -1774,6 +1917,10 @@ def inline_helpers(tree: ast.Module, modname: str, ref_functions: Set[str]) -> i
             n += k + tr.n
             if not k and not tr.n:
                 break
+        if n:
+            for _r in range(4):
+                if not fold_flag_tests(fn):
+                    break
         # drop nested helper definitions that are no longer referenced
         used = {x.id for x in _walk_scope(fn) if isinstance(x, ast.Name) and
                 isinstance(x.ctx, ast.Load)}
